@@ -106,6 +106,12 @@ Clauses(pre, e, post) == [
        /\ e.contnan) => e.retnum.m1,
   C09_RateFresh      |-> (e.op = "rate" /\ Ok(e) /\ ~e.pseudo /\ Fitted(pre))
                            => e.ret = e.expect,
+  \* without any fit the statement allows -1 or 0; whichever it is, it is
+  \* what a fresh curve in the same state gets
+  C09_RateFreshUnfitted |-> (e.op = "rate" /\ Ok(e) /\ ~e.pseudo
+                             /\ Sane(pre) /\ pre.res = "none"
+                             /\ e.expect # "none")
+                              => e.ret = e.expect,
   C09_RateRange      |-> (e.op = "rate" /\ Ok(e) /\ e.tree)
                            => e.retnum.m1 \/ e.retnum.inrange,
   C09_RateFrame      |-> (e.op \in {"rate", "rate_passive", "rate_fault",
